@@ -819,3 +819,146 @@ Proof.
     destruct (states_sound w regs r l x lab Hs) as (_ & Hd & _).
     exists l, d. split; [exact Hl |]. exists lab. exact Hd.
 Qed.
+
+(* ================================================================== the fuelled recursions never run dry *)
+Definition keys (w : world) : list nat := map fst w.
+Definition unseen (w : world) (vis : list nat) : nat :=
+  length (filter (fun k => negb (memn k vis)) (nd (keys w))).
+
+Lemma filter_len_le {A} (f g : A -> bool) l :
+  (forall x, In x l -> f x = true -> g x = true) -> length (filter f l) <= length (filter g l).
+Proof.
+  induction l as [| x l IH]; simpl; intros H; [lia |].
+  assert (IH' : length (filter f l) <= length (filter g l)) by (apply IH; intros; apply H; auto).
+  destruct (f x) eqn:Ef.
+  - rewrite (H x (or_introl eq_refl) Ef). simpl. lia.
+  - destruct (g x); simpl; lia.
+Qed.
+Lemma filter_len_lt {A} (f g : A -> bool) l x :
+  (forall y, In y l -> f y = true -> g y = true) -> In x l -> f x = false -> g x = true ->
+  length (filter f l) < length (filter g l).
+Proof.
+  induction l as [| y l IH]; simpl; intros H Hin Ef Eg; [destruct Hin |].
+  destruct Hin as [-> | Hin].
+  - rewrite Ef, Eg. simpl. assert (length (filter f l) <= length (filter g l)); [| lia].
+    apply filter_len_le. intros; apply H; auto.
+  - assert (IH' : length (filter f l) < length (filter g l)) by (apply IH; auto).
+    destruct (f y) eqn:Efy.
+    + rewrite (H y (or_introl eq_refl) Efy). simpl. lia.
+    + destruct (g y); simpl; lia.
+Qed.
+Lemma filter_len_all {A} (f : A -> bool) l : length (filter f l) <= length l.
+Proof. induction l as [| x l IH]; simpl; [lia |]. destruct (f x); simpl; lia. Qed.
+
+Lemma unseen_mono w vis vis' : incl vis vis' -> unseen w vis' <= unseen w vis.
+Proof.
+  intros H. unfold unseen. apply filter_len_le. intros x _ E. apply negb_true_iff in E. apply negb_true_iff.
+  apply memn_false. apply memn_false in E. intros K. apply E. apply H. exact K.
+Qed.
+Lemma unseen_lt w vis c : In c (keys w) -> ~ In c vis -> unseen w (c :: vis) < unseen w vis.
+Proof.
+  intros Hk Hn. unfold unseen. apply filter_len_lt with (x := c).
+  - intros y _ E. apply negb_true_iff in E. apply negb_true_iff. apply memn_false. apply memn_false in E.
+    intros K. apply E. right. exact K.
+  - apply nd_In. exact Hk.
+  - apply negb_false_iff. apply memn_In. left. reflexivity.
+  - apply negb_true_iff. apply memn_false. exact Hn.
+Qed.
+Lemma unseen_bound w vis : unseen w vis <= length w.
+Proof.
+  unfold unseen. eapply Nat.le_trans; [apply filter_len_all |].
+  unfold keys. rewrite <- (map_length fst w). apply NoDup_incl_length; [apply nd_NoDup |].
+  intros x Hx. apply (proj1 (nd_In _ _)) in Hx. exact Hx.
+Qed.
+
+Lemma find_ent_key w a e : find_ent w a = Some e -> In a (keys w).
+Proof.
+  induction w as [| [k e'] w IH]; simpl; [discriminate |]. destruct (Nat.eqb a k) eqn:E.
+  - intros _. left. apply Nat.eqb_eq in E. auto.
+  - intros H. right. apply IH. exact H.
+Qed.
+Lemma not_call_node_key w c : is_call_node w c = false -> In c (keys w).
+Proof.
+  unfold is_call_node, vis_dflt, simple_binding. destruct (find_ent w c) eqn:E; [intros _; eapply find_ent_key; eassumption |].
+  simpl. discriminate.
+Qed.
+
+Lemma call_nodes_ok w : forall f calls (st : cstate),
+  snd st = false -> unseen w (fst (fst st)) < f ->
+  snd (call_nodes f w calls st) = false /\ incl (fst (fst st)) (fst (fst (call_nodes f w calls st))).
+Proof.
+  induction f as [| f IH]; intros calls st E Hf; [lia |]. simpl.
+  apply (fold_left_inv (fun s : cstate => snd s = false /\ incl (fst (fst st)) (fst (fst s))));
+    [| split; [exact E | apply incl_refl]].
+  intros s c _ [Es Hi]. destruct (memn c (fst (fst s))) eqn:Em; [split; assumption |].
+  destruct (is_call_node w c) eqn:Ec.
+  - simpl. split; [exact Es |]. intros x Hx. right. apply Hi. exact Hx.
+  - assert (Hlt : unseen w (c :: fst (fst s)) < f).
+    { pose proof (unseen_lt w (fst (fst s)) c (not_call_node_key w c Ec) (proj1 (memn_false _ _) Em)).
+      pose proof (unseen_mono w _ _ Hi). lia. }
+    destruct (IH (sub_calls w c) (c :: fst (fst s), snd (fst s), snd s) Es Hlt) as [A B]. split; [exact A |].
+    intros x Hx. apply B. simpl. right. apply Hi. exact Hx.
+Qed.
+
+Theorem get_call_nodes_no_error w calls : snd (get_call_nodes w calls) = false.
+Proof.
+  change (snd (call_nodes (call_fuel w) w calls ([], [], false)) = false).
+  apply call_nodes_ok; [reflexivity |]. cbn [fst snd].
+  pose proof (unseen_bound w []). unfold call_fuel. lia.
+Qed.
+
+(* every node get_call_nodes returns is one that is drawn: visible and not a simple binding *)
+Lemma call_nodes_sound w : forall f calls (st : cstate) c,
+  In c (snd (fst (call_nodes f w calls st))) -> In c (snd (fst st)) \/ is_call_node w c = true.
+Proof.
+  induction f as [| f IH]; intros calls st c; simpl.
+  - destruct calls; simpl; auto.
+  - apply (fold_left_inv (fun s : cstate => In c (snd (fst s)) -> In c (snd (fst st)) \/ is_call_node w c = true));
+      [| auto].
+    intros s x _ Hs. destruct (memn x (fst (fst s))); [exact Hs |].
+    destruct (is_call_node w x) eqn:Ex.
+    + simpl. intros H. apply in_app_iff in H. destruct H as [H | [-> | []]]; auto.
+    + intros H. apply IH in H. simpl in H. destruct H as [H | H]; auto.
+Qed.
+Theorem get_call_nodes_sound w calls c : In c (fst (get_call_nodes w calls)) -> is_call_node w c = true.
+Proof.
+  change (In c (snd (fst (call_nodes (call_fuel w) w calls ([], [], false)))) -> is_call_node w c = true).
+  intros H. apply call_nodes_sound in H. destruct H as [[] | H]. exact H.
+Qed.
+
+Lemma decls_err_false w a : snd (decls_err w a) = false.
+Proof.
+  unfold decls_err. destruct (find_ent w a); [| reflexivity]. destruct (e_str e); [reflexivity |].
+  destruct (e_kind e); cbn [snd]; try reflexivity; apply get_call_nodes_no_error.
+Qed.
+Lemma decls_key w a d : In d (decls w a) -> In a (keys w).
+Proof.
+  unfold decls, decls_err. destruct (find_ent w a) eqn:E; [intros _; eapply find_ent_key; eassumption | intros []].
+Qed.
+
+Lemma create_no_err w : forall f st a,
+  r_err st = false -> unseen w (r_nodes st) < f -> r_err (create f w st a) = false.
+Proof.
+  induction f as [| f IH]; intros st a E Hf; [lia |]. simpl.
+  destruct (memn a (r_nodes st)) eqn:Em; [exact E |].
+  apply (fold_left_inv (fun s => r_err s = false /\ incl (r_nodes st ++ [a]) (r_nodes s))
+                       (fun st1 d => link a d (create f w st1 (d_target d))) (decls w a)).
+  - intros s d Hd [Es Hi]. rewrite link_err, link_nodes.
+    assert (Hlt : unseen w (r_nodes s) < f).
+    { pose proof (unseen_mono w _ _ Hi) as M1.
+      assert (M2 : unseen w (r_nodes st ++ [a]) <= unseen w (a :: r_nodes st)).
+      { apply unseen_mono. intros x [-> | Hx]; apply in_app_iff; [right; left; reflexivity | left; exact Hx]. }
+      pose proof (unseen_lt w (r_nodes st) a (decls_key w a d Hd) (proj1 (memn_false _ _) Em)). lia. }
+    split; [apply IH; assumption |].
+    eapply incl_tran; [exact Hi | apply (create_mono w f s (d_target d))].
+  - simpl. rewrite E, decls_err_false. split; [reflexivity | apply incl_refl].
+Qed.
+
+Theorem states_no_error w xs : r_err (fold_left (get_node w) xs r_empty) = false.
+Proof.
+  apply fold_left_inv; [| reflexivity]. intros st a _ E. unfold get_node. apply create_no_err; [exact E |].
+  pose proof (unseen_bound w (r_nodes st)). unfold reg_fuel. lia.
+Qed.
+
+Theorem states_quiescent' w xs : quiescent w (fold_left (get_node w) xs r_empty).
+Proof. apply states_quiescent. apply states_no_error. Qed.
